@@ -32,7 +32,8 @@ def cases(draw, max_n=3000, cv=False):
     mode = "cv" if cv else draw(st.sampled_from(["rule", "rule", "user", "user", "user_wide"]))
     return {"seed": draw(st.integers(0, 2**31)), "family": fam, "n": n,
             "loc_units": draw(st.sampled_from([0.0, 0.0, 10.0, -10.0, 100.0, 1e3, -1e3, 1e6, -1e6])),
-            "count_unit": draw(st.sampled_from([1, 1, 1, 2500])), "cv_subsample": draw(st.sampled_from([False, False, True])),          # (whole-number samples: the size of one count)
+            "count_unit": draw(st.sampled_from([1, 1, 1, 2500])), "cv_subsample": draw(st.sampled_from([False, False, True])),
+            "bw_type": draw(st.sampled_from([None, "uint8", "int8", "int16", "int64"])),          # (whole-number samples: the size of one count)
             "log_scale": draw(st.sampled_from([0.0, 0.0, draw(st.floats(-6, 6))])),
             "bw_mode": mode, "bw_log_factor": draw(st.floats(np.log10(0.02), np.log10(20))),
             "n_eval": draw(st.integers(1, 40)), "a_pow": draw(st.integers(-20, 20)),
@@ -63,7 +64,10 @@ def make_sample(case):
 def bandwidth_kwargs(case, sample):
     if case["bw_mode"] == "user":
         rule = 1.06 * np.std(sample) / sample.size**0.2
-        return {"bandwidth": float(rule * 10 ** case["bw_log_factor"])}
+        bw = float(rule * 10 ** case["bw_log_factor"])
+        if case["family"] == "counts" and case.get("bw_type") and 1 <= round(bw) <= np.iinfo(case["bw_type"]).max:
+            return {"bandwidth": np.dtype(case["bw_type"]).type(round(bw))}      # a whole-number bandwidth read from an integer array
+        return {"bandwidth": bw}
     if case["bw_mode"] == "user_wide":  # wider than the whole data range
         return {"bandwidth": float(np.ptp(sample) * 10 ** (0.75 * (case["bw_log_factor"] + 1.7)))}
     if case["bw_mode"] == "cv":
@@ -136,6 +140,17 @@ def body_faithful(case, ctx):
         c = np.asarray(kde.cdf(x.copy()), dtype=float)
     if p.shape != x.shape or c.shape != x.shape:
         raise Violation(f"shape:{tag}", f"pdf {p.shape}, cdf {c.shape} for {x.shape} evaluation points")
+    # "any evaluation points": none at all (an empty selection), and a two-dimensional array of them
+    with np.errstate(all="ignore"):
+        pe, ce = np.asarray(kde(x[:0].copy())), np.asarray(kde.cdf(x[:0].copy()))
+    if pe.size != 0 or ce.size != 0:
+        raise Violation(f"shape:{tag}", f"an empty array of evaluation points gives pdf {pe.shape}, cdf {ce.shape}")
+    if x.size >= 4:
+        k2 = 2 * (x.size // 2)
+        with np.errstate(all="ignore"):
+            p2, c2 = np.asarray(kde(x[:k2].reshape(2, -1).copy()), dtype=float), np.asarray(kde.cdf(x[:k2].reshape(2, -1).copy()), dtype=float)
+        if p2.shape != (2, k2 // 2) or c2.shape != (2, k2 // 2) or not np.array_equal(p2.ravel(), p[:k2]) or not np.array_equal(c2.ravel(), c[:k2]):
+            raise Violation(f"shape:{tag}", f"a (2, {k2 // 2}) array of evaluation points gives pdf {p2.shape}, cdf {c2.shape} / other values than the same points in one dimension")
     if np.any(p < 0) or not np.all(np.isfinite(p)):
         raise Violation(f"pdf-negative:{tag}", "pdf negative or not finite")
     ep, ec = exact_pdf(x, sample, h), exact_cdf(x, sample, h)
